@@ -133,9 +133,43 @@ fn signed_route(sc: &mut crate::sigobj::Ctx, c: &Value, content: &[u8], accepted
     Ok(())
 }
 
+/// "A listed hash verifies against data exactly when it equals the SHA-256 of the data" - for data of every size a digest
+/// routine might cut into pieces: none, one octet, around 64 octets (the hash's own block), around 4 KiB, 64 KiB, 128 KiB, 1 MiB.
+fn hash_sizes(s: &mut Summary) {
+    let mut sizes: Vec<usize> = vec![0, 1, 55, 56, 63, 64, 65, 119, 127, 128, 129, 4095, 4096, 4097, 65_535, 65_536, 65_537, 70_001, 131_071, 131_072, 131_073, 200_000, 1_048_576, 1_048_577];
+    sizes.extend((1..=40).map(|k| k * 997));
+    for n in sizes {
+        let data: Vec<u8> = (0..n).map(|i| (i * 31 + (i >> 8)) as u8).collect();
+        let r = guarded(|| -> Result<(), String> {
+            let right = sha256(&data);
+            let entries = vec![(b"a.cer".to_vec(), right.clone())];
+            let bytes = manifest_der(&entries, "20240101000000Z", "20991231235959Z", false);
+            let m = Mode::Der.decode(bytes.as_ref(), ManifestContent::take_from).map_err(|e| e.to_string())?;
+            let h = m.iter().next().ok_or("no entry")?.hash().to_vec();
+            let mh = rpki::repository::manifest::ManifestHash::new(bytes::Bytes::from(h), rpki::crypto::DigestAlgorithm::sha256());
+            if mh.verify(&data).is_err() { return Err("the SHA-256 of the object is listed, verify() says mismatch".into()); }
+            if n > 0 {
+                // the same object one octet shorter, and with its last octet changed
+                let mut other = data.clone(); other.pop();
+                if mh.verify(&other).is_ok() { return Err("verifies against the object cut short by one octet".into()); }
+                let mut other = data.clone(); *other.last_mut().unwrap() ^= 1;
+                if mh.verify(&other).is_ok() { return Err("verifies against the object with its last octet changed".into()); }
+            }
+            Ok(())
+        });
+        match r {
+            Ok(Ok(())) => {}
+            Ok(Err(m)) => s.violation("hash:size", format!("object of {n} octets: {m}"), json!({"size": n})),
+            Err(m) => s.violation("hash:panic", m, json!({"size": n})),
+        }
+        s.evals(1);
+    }
+}
+
 pub fn replay(args: &[String]) {
     let cases = read_cases(&args[0]);
     let mut s = Summary::new();
+    hash_sizes(&mut s);
     let data = b"manifest entry data";
     let mut sc = crate::sigobj::Ctx::new();
     let mut nth = 0usize;
